@@ -184,6 +184,32 @@ SIM_TEMPLATES = {
   ytox = y / x[-1];
 """, flags=dict(linear=True, flat=True), base=dict(rho=0.5, ssx=3.0), vary=dict(rho=(0.1, 0.9), ssx=(0.5, 4.0)),
                init={}, shock="ex", watch=("x", "y", "oy"), portable=True),
+    # nonlinear, non-flat; every kind of quantity with both log statuses (exogenous log variable with growth), descriptions
+    "X1": dict(src="""
+!transition-variables
+  "Output" y, "Consumption" c, k
+!measurement-variables
+  "Observed output" oy, ok
+!exogenous-variables
+  "Productivity" z, g
+!log-variables
+  y, c, z, oy
+!transition-shocks
+  "Consumption shock" ec
+!measurement-shocks
+  "Noise" w
+!parameters
+  "Persistence" rho, ssc
+!transition-equations
+  log(c) = rho*log(c[-1]) + (1-rho)*log(ssc) + ec;
+  y = c * z;
+  k = k[-1] + g;
+!measurement-equations
+  log(oy) = log(y) + w;
+  ok = k;
+""", flags=dict(linear=False), base=dict(rho=0.8, ssc=2.0), vary=dict(rho=(0.2, 0.9), ssc=(1.0, 3.0)),
+               init=dict(z=(1.5, 1.01), g=(0.3, 0), c=(2.0, 1), y=(3.0, 1.01), oy=(3.0, 1.01), k=(10.0, 0.3), ok=(10.0, 0.3)),
+               shock="ec", watch=("y", "c", "k", "oy", "ok"), portable=True),
     # deterministic linear model (no std parameters)
     "D1": dict(src="""
 !transition-variables
@@ -244,8 +270,20 @@ def gen_spec(rng, kind=None) -> dict:
         for n, (lo, hi) in T["vary"].items():
             k = rng.choice([1, nv, max(1, nv - 1)])
             params[n] = [_rnd(rng, lo, hi) for _ in range(k)]
-        return {"kind": "sim", "template": t, "nv": nv, "params": params, "description": rng.choice(["", "model A", "x"]),
+        spec = {"kind": "sim", "template": t, "nv": nv, "params": params, "description": rng.choice(["", "model A", "x"]),
                 "solved": rng.random() < 0.8}
+        # non-default settings that every clone has to carry: tolerances, default std, an extra flag, a near-unit root that
+        # only the custom eigenvalue tolerance classifies as a unit root
+        if rng.random() < 0.5:
+            spec["tolerance"] = {"eigenvalue": rng.choice([1e-6, 1e-5, 1e-9]), "equality": rng.choice([1e-5, 1e-8, 1e-10])}
+            if "rho" in T["vary"] and T["flags"].get("linear") and rng.random() < 0.6:
+                params["rho"] = [1 - 1e-8] + params["rho"][1:]
+                spec["tolerance"]["eigenvalue"] = 1e-6
+        if rng.random() < 0.3 and not T["flags"].get("deterministic"):
+            spec["default_std"] = rng.choice([0.5, 2.0, 0.1])
+        if rng.random() < 0.15 and T["flags"].get("linear") and not T["flags"].get("flat"):
+            spec["flat"] = True
+        return spec
     if kind == "seq":
         t = rng.choice(list(SEQ_TEMPLATES))
         T = SEQ_TEMPLATES[t]
@@ -253,7 +291,7 @@ def gen_spec(rng, kind=None) -> dict:
         return {"kind": "seq", "template": t, "nv": nv, "params": params, "description": rng.choice(["", "seq"]),
                 "data_seed": rng.randint(0, 10 ** 6)}
     ny = rng.choice([1, 2, 3])
-    return {"kind": "var", "ny": ny, "order": rng.choice([1, 2]), "intercept": True, "nv": rng.choice([1, 1, 2]),
+    return {"kind": "var", "ny": ny, "order": rng.choice([1, 2]), "intercept": rng.choice([True, True, False]), "nv": rng.choice([1, 1, 2]),
             "nx": rng.choice([0, 0, 1]), "data_seed": rng.randint(0, 10 ** 6), "nobs": rng.randint(25, 40),
             "description": rng.choice(["", "var"])}
 
@@ -305,7 +343,13 @@ def build(spec):
             kw = dict(T["flags"])
             if T.get("context"):
                 kw["context"] = {"pw": ctx_pw}
+            if spec.get("flat"):
+                kw["flat"] = True
+            if spec.get("default_std") is not None:
+                kw["default_std"] = spec["default_std"]
             m = ir.Simultaneous.from_string(T["src"], description=spec["description"], **kw)
+            if spec.get("tolerance"):
+                m.override_tolerance(**spec["tolerance"])
             m.assign(**T["base"])
             if T["init"]:
                 m.assign(**T["init"])
@@ -401,6 +445,10 @@ def observe(m) -> dict:
     out = {"class": kind, "num_variants": m.num_variants, "description": descr}
     if kind == "Simultaneous":
         out["flags"] = int(m.get_flags())
+        out["tolerance"] = _f(dict(m.get_tolerance()))
+        out["log_status"] = {k: v for k, v in dict(m.get_log_status()).items()}
+        out["shifts"] = [int(m.max_lag), int(m.max_lead)]
+        out["context_names"] = sorted(k for k in m.get_context().keys() if k != "__builtins__")
         out["quantities"] = [[q.human, str(q.kind), q.logly, q.description] for q in m.get_quantities()]
         out["equations"] = list(m.get_equations())
         out["parameters"] = _databox_values(m.get_parameters(unpack_singleton=False))
@@ -412,7 +460,12 @@ def observe(m) -> dict:
             if s is None:
                 sols.append(None)
                 continue
-            sols.append({n: _f(getattr(s, n)) for n in ("T", "P", "K", "Z", "H", "D", "Ta", "Pa", "Ka", "Za", "Ua", "eigenvalues")})
+            d = {n: _f(getattr(s, n)) for n in ("T", "P", "K", "Z", "H", "D", "Ta", "Pa", "Ka", "Za", "Ua", "eigenvalues")}
+            d["num_unit_roots"] = int(s.num_unit_roots)
+            for n in ("eigenvalues_stability", "system_stability", "transition_vector_stability", "measurement_vector_stability"):
+                v = getattr(s, n, None)
+                d[n] = [str(i) for i in v] if isinstance(v, (tuple, list)) else (None if v is None else str(v))
+            sols.append(d)
         out["solutions"] = sols
     elif kind == "Sequential":
         out["equations"] = list(m.get_equations())
@@ -423,6 +476,9 @@ def observe(m) -> dict:
     else:
         out["names"] = list(m.get_names())
         out["order"] = m.order
+        out["has_intercept"] = bool(m.has_intercept)
+        out["has_exogenous"] = bool(m.has_exogenous)
+        out["kinds"] = [str(q.kind) for q in m.get_quantities()]
         sys_ = []
         for s in m.get_system_matrices(unpack_singleton=False):
             sys_.append({n: _f(getattr(s, n)) for n in ("A", "B", "c", "cov_residuals")})
@@ -511,12 +567,18 @@ def gen_ops(rng, spec, n, nv_now=None) -> list:
                 if rng.random() < 0.2 and not T["flags"].get("deterministic"):
                     vals["std_" + T["shock"]] = [_rnd(rng, 0.1, 2.0) for _ in range(rng.randint(1, 2))]
                 ops.append({"op": "assign", "values": vals})
-            elif r < 0.5:
+            elif r < 0.47:
                 ops.append({"op": "steady"})
-            elif r < 0.65:
+            elif r < 0.60:
                 ops.append({"op": "solve"})
-            elif r < 0.8:
+            elif r < 0.72:
                 ops.append({"op": "alter", "n": rng.choice([1, 2, 3, 4])})
+            elif r < 0.76:
+                ops.append({"op": "tolerance", "values": {rng.choice(["eigenvalue", "equality"]): rng.choice([1e-6, 1e-4, 1e-9, 1e-12])}})
+            elif r < 0.80:
+                ops.append({"op": "check_steady", "bump": rng.choice([0.0, 2e-6, 1e-9, 1e-3])})
+            elif r < 0.82:
+                ops.append({"op": "reset_stds"})
             elif r < 0.90:
                 ops.append({"op": "simulate", "size": _rnd(rng, -1, 1), "ant": rng.random() < 0.4, "at": rng.randint(0, 3)})
             elif r < 0.95 and T.get("filterable"):
@@ -573,6 +635,18 @@ def apply_op(m, op, spec):
                 if o == "steady":
                     m.steady()
                     return None
+                if o == "tolerance":
+                    return _f(dict(m.override_tolerance(**op["values"])))
+                if o == "reset_stds":
+                    m.reset_stds()
+                    return None
+                if o == "check_steady":
+                    # the verdict depends on the equality tolerance the model carries
+                    nm = T["watch"][0]
+                    lev = m.get_steady_levels(unpack_singleton=False)[nm]
+                    m.assign(**{nm: [None if v is None else v + op["bump"] for v in lev]})
+                    ok = m.check_steady(when_fails="silent")
+                    return {"ok": _f(ok if not isinstance(ok, tuple) else ok[0])}
                 if o == "solve":
                     m.solve()
                     return None
@@ -1221,6 +1295,10 @@ def correspondence(ctx) -> CorrResult:
         spec = gen_spec(rng, "sim")
         if ip % 4 == 0:
             spec = dict(spec, template="A1", params={})      # a model with !steady_autovalues (#A) equations
+            spec.pop("flat", None)
+        elif ip % 4 == 1:
+            spec = dict(spec, template="X1", params={})      # every quantity kind x log status, exogenous log variable
+            spec.pop("flat", None)
         if not SIM_TEMPLATES[spec["template"]]["portable"]:
             spec["template"] = "L1"
             spec["params"] = {}
@@ -1421,6 +1499,10 @@ def check_portable(spec, work, info) -> list:
     if not T["portable"]:
         return fails
     info["portable_checks"] += 1
+    # tolerances and the default std are not part of the portable representation: default settings here
+    spec = {k: v for k, v in spec.items() if k not in ("tolerance", "default_std")}
+    if spec.get("params", {}).get("rho", [0])[0] > 0.99:
+        spec = dict(spec, params=dict(spec["params"], rho=[0.9] + list(spec["params"]["rho"][1:])))
     m = build(spec)
     inp = {"spec": spec}
     try:
@@ -1450,7 +1532,7 @@ def check_portable(spec, work, info) -> list:
         # what the rebuilt model shows through its getters: names, kinds, log status, descriptions, equations of ALL kinds
         # (transition, measurement, steady autovalues), flags
         om, on = observe(m), observe(n)
-        for part in ("description", "flags", "quantities", "equations", "num_variants"):
+        for part in ("description", "flags", "quantities", "log_status", "equations", "num_variants", "shifts", "context_names"):
             if om[part] != on[part]:
                 missing = [e for e in om[part] if e not in on[part]] if isinstance(om[part], list) else None
                 fails.append(Failure(f"portable:model-{part}:{via}",
@@ -1552,6 +1634,10 @@ def falsify(ctx, hints):
         spec = gen_spec(rng, "sim")
         if i % 4 == 0:
             spec = dict(spec, template="A1", params={})      # steady autovalues
+            spec.pop("flat", None)
+        elif i % 4 == 1:
+            spec = dict(spec, template="X1", params={})      # every quantity kind x log status, exogenous log variable
+            spec.pop("flat", None)
         try:
             fails += check_portable(spec, ctx.work, info)
         except Exception as e:  # noqa
